@@ -578,6 +578,9 @@ func downness(c *lib.Ctx, bks []*backend, rng *lib.Rng) {
 	for r := 0; r < rounds; r++ {
 		mf := 1 + r%3
 		st := setting{Hosts: 2, Policy: "first", MaxConns: 0, MaxFails: mf, FailTimeout: "1500ms", TryDuration: "0", N: 1, Health: r%2 == 1}
+		if r%4 == 3 {
+			st.Hosts = 1 // a pool of one: while it is down nobody is asked
+		}
 		c.Journal("C14 downness %s", lib.JSON(st))
 		u, err := mk(st, bks)
 		if err != nil {
@@ -635,9 +638,14 @@ func downness(c *lib.Ctx, bks []*backend, rng *lib.Rng) {
 		}
 		hits0 := atomic.LoadInt64(&bks[0].entered)
 		for k := 0; k < 5; k++ {
-			_, bk := send("ok", fmt.Sprintf("d%d-o%d", r, k))
+			code, bk := send("ok", fmt.Sprintf("d%d-o%d", r, k))
 			if time.Since(tFirst) < u.ft-50*time.Millisecond {
-				if bk != "1" || atomic.LoadInt64(&bks[0].entered) != hits0 {
+				if st.Hosts == 1 {
+					if code != 502 || atomic.LoadInt64(&bks[0].entered) != hits0 {
+						c.Violation("C14/not-down-with-max_fails-unexpired", fmt.Sprintf("pool of one host with %d unexpired failures >= max_fails %d: the request was answered %d (backend %q, backend entered %d more times); it must be refused without asking the backend", mf, mf, code, bk, atomic.LoadInt64(&bks[0].entered)-hits0), st)
+					}
+					c.Count("downness_checks_single_host", 1)
+				} else if bk != "1" || atomic.LoadInt64(&bks[0].entered) != hits0 {
 					c.Violation("C14/not-down-with-max_fails-unexpired", fmt.Sprintf("request forwarded to host 0 (backend %q) while %d unexpired failures >= max_fails %d", bk, mf, mf), st)
 				}
 				c.Count("downness_checks", 1)
